@@ -431,8 +431,7 @@ def rw_atom_pattern_guard(toks, counts, shim="atom_of"):
         s, e, new = hit
         toks = toks[:s] + relex(new) + toks[e:]
         n += 1
-    if n == 0:
-        raise LostAnchor("no (atom!(..), ..) arm pattern found")
+    # (no such arm: nothing to do)
     _count(counts, "R5", n)
     return toks
 
